@@ -13,7 +13,7 @@ import os
 
 from vfw.ctx import Mismatch
 from vfw.machines import render
-from vfw.scenario import ANY, Acceptor, Script, accept_or_mismatch, outcome_of
+from vfw.scenario import ANY, Acceptor, Script, accept_or_mismatch, next_call, outcome_of
 
 STATES = ["a", "b", "c"]
 EVENTS = ["go", "hop", "tick"]
@@ -122,8 +122,7 @@ def run_history(ctx, params, script_kw, prop, class_name):
         cur = STATES[params["s0"]]
     for k in range(params["calls"]):
         ev = events[ctx.choose(len(events), f"call{k}")]
-        del script.log[:]
-        script._first_trigger = None
+        next_call(script, k)
         if "call_budgets" in params:
             script.budget = params["call_budgets"][k]
             script.taken = []
